@@ -98,3 +98,29 @@ def method(it, ref, h, name, args, kwargs):
         k = z3.Int(fresh_name("sk"))
         return mk(z3.ForAll([k], z3.Implies(z3.Select(s.member, k), z3.Select(o.member, k))), "bool")
     raise Unsupported(f"set.{name} on a symbolic set")
+
+
+def enumeration(it, s):
+    """An arbitrary duplicate-free enumeration of the set (python's iteration order is arbitrary)."""
+    if getattr(s, "enum", None) is not None:
+        return s.enum
+    from .values import SymSeq
+    from .verify import ArrShape
+    from . import spec as specmod
+    ctx = it.ctx
+    nm = fresh_name("setenum")
+    n = z3.Int(nm + ".len")
+    ctx.assume(n >= 0)
+    ctx.seq_lens.append(n)
+    arr = z3.Array(nm, z3.IntSort(), z3.IntSort())
+    sq = SymSeq(n, ArrShape(it.engine, specmod.Int, ctx), arr)
+    sq.pyshape = specmod.Seq(specmod.Int, container="tuple")
+    idx = z3.Function(fresh_name("sidx"), z3.IntSort(), z3.IntSort())
+    i = z3.Int(fresh_name("sei"))
+    k = z3.Int(fresh_name("sek"))
+    ctx.assume(z3.ForAll([i], z3.Implies(z3.And(0 <= i, i < n),
+                                        z3.And(z3.Select(s.member, z3.Select(arr, i)), idx(z3.Select(arr, i)) == i))))
+    ctx.assume(z3.ForAll([k], z3.Implies(z3.Select(s.member, k),
+                                        z3.And(0 <= idx(k), idx(k) < n, z3.Select(arr, idx(k)) == k)), patterns=[idx(k)]))
+    s.enum = sq
+    return sq
